@@ -65,6 +65,11 @@ def _stable_repr(value: Any) -> str:
         return repr(value)
     if isinstance(value, (set, frozenset, list, tuple)):
         return repr(sorted(_stable_repr(item) for item in value))
+    if isinstance(value, dict):
+        return repr(sorted(
+            (_stable_repr(key), _stable_repr(item))
+            for key, item in value.items()
+        ))
     module = getattr(value, '__module__', None)
     name = getattr(value, '__qualname__', getattr(value, '__name__', None))
     if isinstance(module, str) and isinstance(name, str):
@@ -403,6 +408,7 @@ class PageTemplate(BaseTemplate):
             'restricted_namespace',
             'default_marker',
             'tokenizer',
+            'expression_types',
         ):
             v = _stable_repr(getattr(self, attr))
             digest.update(
